@@ -267,6 +267,8 @@ pub struct Ctx {
     pub tier: Tier,
     pub seed: u64,
     pub level: &'static str,
+    /// replay mode: no evidence / replay files are written
+    pub replay_of: Option<String>,
     start: Instant,
     inner: Mutex<CtxInner>,
 }
@@ -291,6 +293,7 @@ impl Ctx {
             tier,
             seed,
             level,
+            replay_of: None,
             start: Instant::now(),
             inner: Mutex::new(CtxInner::default()),
         }
@@ -421,12 +424,17 @@ impl Ctx {
                 sanitize(&v.signature),
                 n
             );
-            let path = rdir.join(fname);
+            let path = match &self.replay_of {
+                Some(p) => PathBuf::from(p),
+                None => rdir.join(fname),
+            };
             let body = json!({
                 "property": v.property, "signature": v.signature, "detail": v.detail,
                 "tier": self.tier.name(), "seed": self.seed, "replay": v.replay,
             });
-            let _ = std::fs::write(&path, serde_json::to_string_pretty(&body).unwrap());
+            if self.replay_of.is_none() {
+                let _ = std::fs::write(&path, serde_json::to_string_pretty(&body).unwrap());
+            }
             say(&format!("VIOLATION property={} replay={}", self.property, path.display()));
             say(&format!("  signature={} detail={}", v.signature, trunc(&v.detail, 600)));
             exit = 1;
@@ -485,12 +493,14 @@ impl Ctx {
             "violations": unknown.len(),
             "verdict": match exit { 0 => "held on everything explored", 1 => "violated", _ => "inconclusive" },
         });
-        let edir = root.join("evidence");
-        let _ = std::fs::create_dir_all(&edir);
-        let _ = std::fs::write(
-            edir.join(format!("{}.json", self.property)),
-            serde_json::to_string_pretty(&ev).unwrap(),
-        );
+        if self.replay_of.is_none() {
+            let edir = root.join("evidence");
+            let _ = std::fs::create_dir_all(&edir);
+            let _ = std::fs::write(
+                edir.join(format!("{}.json", self.property)),
+                serde_json::to_string_pretty(&ev).unwrap(),
+            );
+        }
         say(&format!("{} {} seed={} evaluations={} distinct_nontrivial={} violations={} known={} wall={:.1}s => {}",
             self.property,
             self.tier.name(),
